@@ -1,9 +1,10 @@
 #!/bin/bash
-# mut_sync.sh: refresh the mutation sandbox (/tmp/verif_mut = copy of /verif, /tmp/repo_mut = scratch worktree of /repo)
-# used by tools/run_seeded.py with VERIF_DIR=/tmp/verif_mut VERIF_REPO=/tmp/repo_mut, so that /repo is never patched
-# while other checks run.
+# mut_sync.sh [suffix]: refresh a mutation sandbox (/tmp/verif_mut<suffix> = copy of /verif, /tmp/repo_mut<suffix> = scratch
+# worktree of /repo), used by tools/run_seeded.py with VERIF_DIR=/tmp/verif_mut<suffix> VERIF_REPO=/tmp/repo_mut<suffix>,
+# so that /repo is never patched while other checks run.
 set -e
-if [ ! -d /tmp/repo_mut ]; then git -C /repo worktree prune; git -C /repo worktree add -q --detach /tmp/repo_mut HEAD; fi
-git -C /tmp/repo_mut checkout -q -- . ; git -C /tmp/repo_mut clean -fdq
-rsync -a --delete --exclude .git --exclude 'build/run_*' --exclude replays /verif/ /tmp/verif_mut/
-sed -i 's#=> /repo#=> /tmp/repo_mut#' /tmp/verif_mut/harness/keysmod/go.mod
+S=$1
+if [ ! -d /tmp/repo_mut$S ]; then git -C /repo worktree prune; git -C /repo worktree add -q --detach /tmp/repo_mut$S HEAD; fi
+git -C /tmp/repo_mut$S checkout -q -- . ; git -C /tmp/repo_mut$S clean -fdq
+rsync -a --delete --exclude .git --exclude 'build/run_*' --exclude replays /verif/ /tmp/verif_mut$S/
+sed -i "s#=> /repo#=> /tmp/repo_mut$S#" /tmp/verif_mut$S/harness/keysmod/go.mod
